@@ -22,6 +22,8 @@ limitations under the License.
 #include <string>         // std::string
 #include <thread>         // std::this_thread::get_id
 #include <unordered_set>  // std::unordered_set
+#include <utility>        // std::pair
+#include <vector>         // std::vector
 
 #include "optree/optree.h"
 
@@ -417,6 +419,76 @@ py::object PyTreeSpec::ToPickleable() const {
         node.num_nodes = thread_safe_cast<ssize_t>(t[6]);
     }
     out->m_traversal.shrink_to_fit();
+
+    // Validate the invariants the other methods rely on. The state may come from corrupted bytes.
+    std::vector<std::pair<ssize_t, ssize_t>> subtrees{};  // (num_leaves, num_nodes) in post-order
+    subtrees.reserve(out->m_traversal.size());
+    for (const Node& node : out->m_traversal) {
+        const auto stack_size = py::ssize_t_cast(subtrees.size());
+        bool valid = (node.arity >= 0 && node.arity <= stack_size);
+        switch (node.kind) {
+            case PyTreeKind::Leaf: {
+                valid = valid && node.arity == 0;
+                break;
+            }
+            case PyTreeKind::None: {
+                valid = valid && node.arity == 0 && !none_is_leaf;
+                break;
+            }
+            case PyTreeKind::Dict:
+            case PyTreeKind::OrderedDict: {
+                valid = valid && ListGetSize(node.node_data) == node.arity;
+                break;
+            }
+            case PyTreeKind::DefaultDict: {
+                valid = valid && py::isinstance<py::tuple>(node.node_data) &&
+                        TupleGetSize(node.node_data) == 2;
+                if (valid) [[likely]] {
+                    const py::object keys = TupleGetItem(node.node_data, 1);
+                    valid = py::isinstance<py::list>(keys) && ListGetSize(keys) == node.arity;
+                }
+                break;
+            }
+            case PyTreeKind::NamedTuple: {
+                valid = valid && IsNamedTupleClass(node.node_data) &&
+                        TupleGetSize(NamedTupleGetFields(node.node_data)) == node.arity;
+                break;
+            }
+            case PyTreeKind::StructSequence: {
+                valid = valid && IsStructSequenceClass(node.node_data) &&
+                        TupleGetSize(StructSequenceGetFields(node.node_data)) == node.arity;
+                break;
+            }
+            case PyTreeKind::Custom: {
+                valid = valid &&
+                        (!node.node_entries || TupleGetSize(node.node_entries) == node.arity);
+                break;
+            }
+            default:
+                break;
+        }
+        if (valid && node.original_keys) [[unlikely]] {
+            valid = ListGetSize(node.original_keys) == node.arity;
+        }
+        if (!valid) [[unlikely]] {
+            throw std::runtime_error("Malformed pickled PyTreeSpec.");
+        }
+        ssize_t num_leaves = (node.kind == PyTreeKind::Leaf ? 1 : 0);
+        ssize_t num_nodes = 1;
+        for (ssize_t i = 0; i < node.arity; ++i) {
+            num_leaves += subtrees.back().first;
+            num_nodes += subtrees.back().second;
+            subtrees.pop_back();
+        }
+        if (node.num_leaves != num_leaves || node.num_nodes != num_nodes) [[unlikely]] {
+            throw std::runtime_error("Malformed pickled PyTreeSpec.");
+        }
+        subtrees.emplace_back(num_leaves, num_nodes);
+    }
+    if (subtrees.size() != 1) [[unlikely]] {
+        throw std::runtime_error("Malformed pickled PyTreeSpec.");
+    }
+
     PYTREESPEC_SANITY_CHECK(*out);
     return out;
 }
